@@ -15,6 +15,10 @@ PROPS = {
                    "and marks the node, every raw staleness write notifies parents, setters notify, update() overrides produce the value "
                    "and clear the flag reading children through .value, the stop condition of mark_for_update is exactly (not stale and not "
                    "frozen), every graph edit ends in a cycle check. Decided per function on its CFG over all node classes found in the source."),
+    "C12": ("c12", "Typestate rule: every reader of the histogram count store is dominated by a flush of pending entries (or is flush-independent by "
+                   "construction); index conventions of underflow/bins/overflow agree with the filler; path rules on the single-pass filler: the comparison "
+                   "between entry and edge is `>=` (half-open bins), every loop path that consumes an entry increments exactly one count and records the "
+                   "entry, leftovers go to the overflow with their number, pending list cleared; rebin zeroes counts and re-queues all processed entries."),
 }
 
 
